@@ -196,3 +196,39 @@ Theorem c04_K3_changes_answer :
   /\ nlen [1; 3; 5] = 3 /\ nth_error [1; 3; 5] 1 = Some 3.
 Proof. exact K3_changes_answer. Qed.
 Print Assumptions c04_K3_changes_answer.
+
+(* ---------------------------------------------------------------- the checkpoint sidecar (derived cache, class K2) *)
+(* compaction_status_v1.latest_checkpoint through the `.comp.v1.jsonl` sidecar (as found, or built from the
+   full sidecar's line headers), for all scan bounds: outside K1 and K2 it is the truth answer.  K2 is
+   spelled out: the sidecar, when present, is the projection of the truth stream; when absent, a full sidecar
+   without an unparsable line is the truth stream. *)
+Theorem c04_latest_checkpoint_transparent_partial :
+  forall (me mb : N) (comp full : sfile) (l : log),
+  valid_log l = true -> log_lens_pos l = true -> FullFaithful l full -> CompFaithful l comp full ->
+  status_ckpt_fast me mb comp full l = option_map fseq (latest_ckpt_truth U64MAX l).
+Proof. exact status_ckpt_transparent. Qed.
+Print Assumptions c04_latest_checkpoint_transparent_partial.
+
+Example c04_latest_checkpoint_example :
+  CompFaithful wlog3 (Some (comp_projection wlog3)) (Some (project_full wlog3))
+  /\ CompFaithful wlog3 None (Some (project_full wlog3))
+  /\ status_ckpt_fast 100 1000 (Some (comp_projection wlog3)) (Some (project_full wlog3)) wlog3 = Some 3
+  /\ status_ckpt_fast 100 1000 None (Some (project_full wlog3)) wlog3 = Some 3.
+Proof. exact status_ckpt_example. Qed.
+
+(* K2 is not vacuous (S4): the sidecar re-created by the append of a later checkpoint with a smaller to_seq *)
+Theorem c04_K2_changes_answer :
+  valid_log wlog3 = true /\ log_lens_pos wlog3 = true /\ FullFaithful wlog3 (Some (project_full wlog3))
+  /\ ~ CompFaithful wlog3 (Some [LGood (wck 4 1)]) (Some (project_full wlog3))
+  /\ status_ckpt_fast 100 1000 (Some [LGood (wck 4 1)]) (Some (project_full wlog3)) wlog3 = Some 4
+  /\ option_map fseq (latest_ckpt_truth U64MAX wlog3) = Some 3.
+Proof. exact K2_changes_answer. Qed.
+Print Assumptions c04_K2_changes_answer.
+
+(* the order in which the checkpoint frames are met does not matter (sidecar scans are latest-first, the
+   replay is oldest-first) *)
+Theorem c04_latest_checkpoint_order_independent :
+  forall (mt : N) (fs : list frame) (b : option frame), seq_inj fs ->
+  latest_ckpt mt b (rev fs) = latest_ckpt mt b fs.
+Proof. exact latest_ckpt_rev. Qed.
+Print Assumptions c04_latest_checkpoint_order_independent.
